@@ -3,12 +3,14 @@
 #   mode run : <demo>/run.sh <worktree>          (the script builds the gateway itself)
 #   mode vgw : VGW=<binary built from the worktree> python3 <demo>/demo<k>.py
 #   mode arg : python3 <demo>/demo<k>.py <binary built from the worktree>
+#   mode wt  : python3 <demo>/demo<k>.py <worktree>   (the program builds the gateway itself, e.g. with -tags verif)
 SRC=/tmp/seedout/$1; K=$2; DST=/verif/seeded/$3; MODE=$4; PATCH=${5:-$SRC/patch$K.diff}; DEMO=${6:-$SRC/demo$K}
 export GOFLAGS=-mod=mod GOPROXY=off GOSUMDB=off GOTOOLCHAIN=local; unset AWS_CA_BUNDLE
 WT=/tmp/wt/vc-$1-$K
 git -C /repo worktree remove --force $WT 2>/dev/null; git -C /repo worktree add -q --detach $WT HEAD || exit 1
 run_demo() {
   if [ "$MODE" = run ]; then sh $DEMO/run.sh $WT >/tmp/vc-$1-$K.out 2>&1
+  elif [ "$MODE" = wt ]; then python3 $DEMO/demo$K.py $WT >/tmp/vc-$1-$K.out 2>&1
   elif [ "$MODE" = arg ]; then BIN=$(mktemp -d)/vgw; (cd $WT && go build -o $BIN ./cmd/versitygw) && python3 $DEMO/demo$K.py $BIN >/tmp/vc-$1-$K.out 2>&1; rc=$?; rm -rf $(dirname $BIN); return $rc
   else BIN=$(mktemp -d)/vgw; (cd $WT && go build -o $BIN ./cmd/versitygw) && VGW=$BIN python3 $DEMO/demo$K.py >/tmp/vc-$1-$K.out 2>&1; fi; }
 run_demo $1 $K; R0=$?
